@@ -223,8 +223,21 @@ def run_order_case(case):
     named = c06.name_components(nodes, links_plain)
     order = case["order"].split(",")
     with core.workdir() as d:
-        res, files = ordergfa.run_order(d, case["gfa"], case["order"], case["by_chrom"], case["with_sequence"],
-                                        via=case.get("via", "api"))
+        limit = case.get("nofile_headroom")
+        if limit:
+            # many chromosomes: every file is closed when it is done with, so a soft limit of `headroom` descriptors above
+            # those open now is plenty however many chromosomes there are
+            import os
+            import resource
+
+            soft, hard = resource.getrlimit(resource.RLIMIT_NOFILE)
+            resource.setrlimit(resource.RLIMIT_NOFILE, (len(os.listdir("/proc/self/fd")) + limit, hard))
+        try:
+            res, files = ordergfa.run_order(d, case["gfa"], case["order"], case["by_chrom"], case["with_sequence"],
+                                            via=case.get("via", "api"))
+        finally:
+            if limit:
+                resource.setrlimit(resource.RLIMIT_NOFILE, (soft, hard))
     core.check(res[0] == "ok", "order_gfa failed: %s", res)
     # the input itself must still load to what its text says (nothing left behind by the run in this process)
     from gaftools.gfa import GFA
@@ -295,3 +308,22 @@ def enumerations(tier, shard, nshards):
             yield {"kind": "order", "gfa": text, "order": "chr1", "by_chrom": ws, "with_sequence": ws, "via": "api"}
 
     yield ("a segment line longer than 1 MiB (1.2 Mb insertion allele): round trip and order_gfa with/without sequences", gen(), True)
+
+    def many():
+        # 120 chromosomes (a bubble each) with no more than 40 spare file descriptors
+        lines, names = [], []
+        for c in range(120):
+            nm = "ctg%03d" % c
+            names.append(nm)
+            e0, a, x, y, b_, e1 = ["m%d%s" % (c, t) for t in ("e", "a", "x", "y", "b", "f")]
+            lines += ["S\t%s\tA\tLN:i:1\tSN:Z:%s\tSO:i:0\tSR:i:0" % (e0, nm), "S\t%s\tACG\tLN:i:3\tSN:Z:%s\tSO:i:1\tSR:i:0" % (a, nm),
+                      "S\t%s\tT\tLN:i:1\tSN:Z:%s\tSO:i:4\tSR:i:0" % (x, nm), "S\t%s\tGG\tLN:i:2\tSN:Z:%s\tSO:i:5\tSR:i:0" % (b_, nm),
+                      "S\t%s\tC\tLN:i:1\tSN:Z:h#1#%s\tSO:i:0\tSR:i:1" % (y, nm), "S\t%s\tT\tLN:i:1\tSN:Z:%s\tSO:i:7\tSR:i:0" % (e1, nm),
+                      "L\t%s\t+\t%s\t+\t0M" % (e0, a), "L\t%s\t+\t%s\t+\t0M" % (a, x), "L\t%s\t+\t%s\t+\t0M" % (x, b_),
+                      "L\t%s\t+\t%s\t+\t0M" % (a, y), "L\t%s\t+\t%s\t+\t0M" % (y, b_), "L\t%s\t+\t%s\t+\t0M" % (b_, e1)]
+        text = "\n".join(lines) + "\n"
+        for by in (False, True):
+            yield {"kind": "order", "gfa": text, "order": ",".join(names), "by_chrom": by, "with_sequence": True, "via": "api",
+                   "nofile_headroom": 40}
+
+    yield ("120 chromosomes ordered in one run with 40 spare file descriptors (merged and --by-chrom)", many(), True)
